@@ -459,6 +459,74 @@ def finish(prop, tier, seed, level, cov, assumptions, wall, violations, infra):
     return 0
 
 
+LIBPROPS = {
+    "C16": dict(level="exploration",
+        rule=("All pairs and triples of every bounded carrier (bool; u8 / i8 / usize / i64 at extremal and middle values; Option, "
+              "Rc / Arc / Box, Reverse, Dual, OrdLattice liftings; tuples of 1-3 components; Product of tuples and arrays, including "
+              "Product over Set and Dual components; Set<u8> over {0,1,2}; BoundedSet<2> over 0..4 and BoundedSet<1>; "
+              "ConstPropagation over 0..3; nested compositions such as Dual<Option<Product<(u8, Dual<bool>)>>>) enumerated "
+              "exhaustively, plus proptest-generated triples over i32, larger Set<u8>, BoundedSet<4, u8> and "
+              "Product<(u16, Dual<Option<i8>>)>. Laws per triple: commutativity, associativity, idempotence, absorption, "
+              "a <= b <=> join(a,b) = b <=> meet(a,b) = a against the type's PartialOrd, join_mut / meet_mut leave the value of "
+              "join / meet and return true iff the receiver changed; Dual / Reverse swap the operations; top / bottom extremal. "
+              "evaluations = law instances (triples); non-trivial = ordered pairs with a != b (incomparable pairs counted separately)."),
+        assumptions=["PartialEq / Debug of the shipped types are trusted", "full-width integers and large sets are sampled, the listed small carriers are exhaustive"]),
+    "C17": dict(level="exploration",
+        rule=("Multisets of i64 (empty, singleton, 2-200 elements, small ranges with duplicates, constant, sorted, reversed), p drawn "
+              "from {0, 100, uniform [0,100], k*100/len +- 1e-9}, iterators with and without an exact size_hint (count branches on "
+              "it). Oracle: own definitions on a sorted copy (min, max, sum, cardinality, sum/n for mean on values < 1000, percentile = "
+              "element of rank min(floor(n*p/100), n-1), not = one unit iff empty; empty-input outcomes); any panic is a violation. "
+              "Non-trivial: n >= 2 and (a duplicate value, or p on a rank boundary or at an end point)."),
+        assumptions=["mean is compared exactly: inputs are integers below 1000 in absolute value, so the f64 sum is exact"]),
+    "C18": dict(level="exploration",
+        rule=("TrRelUnionFind<u8>: every add-sequence of length 5 over 3 elements and of length 4 over 4 elements (all prefixes are "
+              "checked on the way, so all shorter sequences are covered), plus proptest sequences up to length 60 over 8 elements "
+              "biased towards back edges over already merged classes, repeated pairs and self pairs. After every add: contains for "
+              "all pairs, iter_all (as a set and without duplicates), set_of, rev_set_of, count_exact against Warshall's "
+              "reflexive-transitive closure; assert_disjoint_invariant and assert_set_connections_dominant_sets must not panic. "
+              "UnionFind<u8>: histories of add, find_item, union_add and the unsafe id-level find / union on ids returned by add "
+              "(the documented precondition); find_item equality must match a naive partition, len / is_empty must match. "
+              "Non-trivial: the history contains an add that closes a cycle through a third element (class collapse), or a union "
+              "of two multi-element classes."),
+        assumptions=["the return value of TrRelUnionFind::add is not part of the property and is not checked"]),
+    "C19": dict(level="exploration",
+        rule=("Per index type (RelIndexType1, LatticeIndexType, RelFullIndexType, RelNoIndexType, CRelIndex, CLatIndex, CRelFullIndex, "
+              "CRelNoIndex; RelIndexCombined over (total, delta) of each) histories of up to 40 operations over keys and values 0..6 on "
+              "a (new, delta, total) triple created in one pool: index_insert through the &mut path and through the concurrent &self "
+              "path, insert_if_not_present (full indices; keys unique across versions as in generated code), "
+              "merge_delta_to_total_new_to_delta with either side larger and keys on both sides, freeze / unfreeze cycles, lookups "
+              "of present and absent keys, iter_all, contains_key, is_empty, against a model triple of multimaps (sets for the "
+              "set-backed types). Concurrent rounds: 6-24 rayon workers in pools of 2, 4, 8 insert overlapping batches into CRelIndex, "
+              "CLatIndex, CRelNoIndex with seeded perturbation at the hook points and race insert_if_not_present on one key of a "
+              "CRelFullIndex: every insert must be retained and exactly one racer wins. Non-trivial history: >= 2 merges, one taking "
+              "the 'delta larger than total' swap path and one not, with a key occupied on both sides; every concurrent round."),
+        assumptions=["thread interleavings of the concurrent rounds are sampled, not enumerated"]),
+}
+
+
+def libprops(prop, tier, seed):
+    t0 = time.time()
+    exe = build_engine_bin("libprops")
+    out = os.path.join(WORK, "libprops_%s.json" % prop)
+    if os.path.exists(out):
+        os.remove(out)
+    pr = sh([exe, prop, "--tier", tier, "--seed", str(seed), "--out", out], check=False)
+    if pr.returncode != 0 or not os.path.exists(out):
+        sys.stderr.write(pr.stdout[-3000:])
+        raise Inconclusive("libprops exited with %d" % pr.returncode)
+    r = json.load(open(out))
+    cfg = LIBPROPS[prop]
+    cov = dict(evaluations=r["evaluations"], distinct_nontrivial=r["nontrivial"], rule=cfg["rule"], samples=r["samples"] or [r["distribution"]],
+               distribution=r["distribution"], notes=r.get("notes", []), exhaustive=False,
+               exhaustive_part=("the bounded carriers / sequence bounds named in the rule are enumerated completely" if prop in ("C16", "C18") else "none"))
+    viol = []
+    for i, v in enumerate(r["violations"]):
+        viol.append(dict(property=prop, base="%s-libprops" % prop, signature="%s:%s" % (prop, json.dumps(v)[:160]),
+                         failures=[v], program_text=json.dumps(v, indent=1), input_text="", seed=seed, tier=tier,
+                         replay_how="./check %s --tier %s --seed %d re-runs the same generated sequence" % (prop, tier, seed)))
+    return finish(prop, tier, seed, cfg["level"], cov, cfg["assumptions"], time.time() - t0, viol, [])
+
+
 def main(argv):
     if not argv:
         print(__doc__)
@@ -493,6 +561,12 @@ def main(argv):
             cov, violations, infra = merge_progfuzz(prop, tier, seed, run)
             cfg = run["cfg"]
             return finish(prop, tier, seed, cfg["level"], cov, cfg["assumptions"], time.time() - t0, violations, infra)
+        if prop in LIBPROPS:
+            if replay:
+                rd = json.load(open(replay))
+                seed = rd.get("seed", seed)
+                tier = rd.get("tier", tier)
+            return libprops(prop, tier, seed)
         print("no check registered for", prop)
         return 2
     except Inconclusive as e:
